@@ -104,6 +104,43 @@ def run_case(case, refs, hdr):
     return {'minput': minputs, 'outs': outs, 'table': table, 'fragcons': fragcons}
 
 
+def run_history(h, refs, hdr):
+    """a history of operations on ONE real Molecule object: add_fragment / _add_fragment / add_molecule / get_consensus"""
+    from singlecellmultiomics.molecule import Molecule
+    from singlecellmultiomics.fragment import Fragment
+    frags, minputs = [], []
+    for n, slots in enumerate(h['frags']):
+        reads = [None if s is None else make_read(hdr, 'q%d' % n, s, i, refs) for i, s in enumerate(slots)]
+        frags.append(Fragment(reads, assignment_radius=100000, umi_hamming_distance=1))
+        minputs.append([read_model_input(r) for r in reads])
+    m = Molecule()
+    out = []
+    for op in h['ops']:
+        try:
+            if op[0] == 'add':
+                out.append(bool(m.add_fragment(frags[op[1]])))
+            elif op[0] == 'raw':
+                m._add_fragment(frags[op[1]])
+                out.append(None)
+            elif op[0] == 'mol':
+                other = Molecule()
+                acc = [i for i in op[1] if other.add_fragment(frags[i])]
+                m.add_molecule(other)
+                out.append(acc)
+            elif op[0] == 'get':
+                ds, probs = bool(op[1]), bool(op[2])
+                if probs:
+                    d, ph, cons = m.get_consensus(dove_safe=ds, with_probs_and_obs=True)
+                    table = [] if cons is None else sorted([CONTIGS.index(k[0]), int(k[1])] + [int(x) for x in v]
+                                                           for k, v in cons.items())
+                    out.append({'cons': canon_dict(d), 'table': table})
+                else:
+                    out.append({'cons': canon_dict(m.get_consensus(dove_safe=ds))})
+        except BaseException as e:
+            out.append(err(e))
+    return {'minput': minputs, 'ops': out, 'n_held': len(m.fragments)}
+
+
 def handler(p):
     import pysam
     from singlecellmultiomics.utils.sequtils import pick_best_base_call
@@ -118,6 +155,12 @@ def handler(p):
                 res.append(run_case(case, p['refs'], hdr))
             except BaseException as e:
                 res.append(err(e))
+        hist = []
+        for h in p.get('histories', []):
+            try:
+                hist.append(run_history(h, p['refs'], hdr))
+            except BaseException as e:
+                hist.append(err(e))
         picks = []
         for calls in p.get('picks', []):
             try:
@@ -127,7 +170,7 @@ def handler(p):
                 picks.append(err(e))
     finally:
         sys.stdout = old
-    return {'cases': res, 'picks': picks}
+    return {'cases': res, 'picks': picks, 'histories': hist}
 
 
 fw.impl_main(handler)
